@@ -20,6 +20,9 @@ Output: lean/OdfModel/Generated/XhtmlDispatch.lean
   specialStyles        the module's `special_styles`
   moinElements         the `elements` dict of a live ODF2MoinMoin (tag -> method name), built without loading a file
   moinIgnored / moinInline   IGNORED_TAGS / INLINE_TAGS of odf2moinmoin (from odf/elementtypes.py)
+  moinContainer        CONTAINER_TAGS of odf2moinmoin: the elements that toString and textToString walk like a section
+                       (frames, text boxes, drawing shapes, sections, numbered paragraphs, indexes); the TEMPLATE_TAGS are
+                       entries of moinElements (do_nothing)
 """
 import ast, inspect, os, sys, textwrap
 
@@ -196,6 +199,7 @@ def measure(repo):
         'css_safe': css_writes_safe(X.ODF2XHTML),
         'special': sorted(X.special_styles.items()),
         'moin_elements': melements, 'moin_ignored': list(M.IGNORED_TAGS), 'moin_inline': list(M.INLINE_TAGS),
+        'moin_container': list(getattr(M, 'CONTAINER_TAGS', ())),
         'nsdict_injective': len(set(nsdict.values())) == len(nsdict),
         'default_styles': X.ODF2XHTML.default_styles,
     }
@@ -248,6 +252,10 @@ def to_lean(m):
     L.append(']\n')
     L.append('def moinInline : List (List Nat) := [')
     L.append(',\n'.join('  %s  /- %s -/' % (cps(k), k) for k in m['moin_inline']))
+    L.append(']\n')
+    L.append('/-- `CONTAINER_TAGS`: walked by toString and textToString like a section -/')
+    L.append('def moinContainer : List (List Nat) := [')
+    L.append(',\n'.join('  %s  /- %s -/' % (cps(k), k) for k in m['moin_container']))
     L.append(']\n')
     L.append('end OdfModel.Generated.Xhtml')
     return '\n'.join(L) + '\n'
